@@ -214,7 +214,7 @@ func c08RunWorld(t *testing.T, rc c08Recipe, em *Emitter) []c08Shot {
 	}
 	var pool []ocr2keepers.CheckResult // index space of x.pool: common, extraB, old
 	for i := 0; i < rc.NRes+rc.ExtraB+rc.NOld; i++ {
-		pool = append(pool, mk(r.Chance(60)))
+		pool = append(pool, mk(r.Chance(60) || rc.Layout == "max-log"))
 	}
 	common := pool[:rc.NRes]
 	// perform data layout relative to the canonical order of the FIRST sequence number's source
@@ -260,6 +260,10 @@ func c08RunWorld(t *testing.T, rc c08Recipe, em *Emitter) []c08Shot {
 			}
 			pool[order[k]].PerformData = heavy()
 			rc.NHeavy--
+		}
+	case "max-log": // every result as long as the on-chain cap allows: log trigger (four 32-byte arrays), 10 000 bytes of perform data
+		for i := range pool {
+			pool[i].PerformData = r.Bytes(10_000)
 		}
 	case "beyond-cap": // far beyond the on-chain cap: reaches the `limit <= 0` exit of the trimming
 		for k := 0; k < rc.NHeavy && k < len(order); k++ {
@@ -766,8 +770,13 @@ func c08Gen(r *Rng, i int) c08Recipe {
 	if r.Chance(15) {
 		rc.ExtraB = r.Range(1, 20)
 	}
+	if i%12 == 5 { // maximal-size results around the point where the byte limit starts to cut
+		rc.NRes = r.Range(55, 90)
+		rc.Layout = "max-log"
+		rc.Seqs = rc.Seqs[:1]
+	}
 	// heavy layouts: make the byte limit cut
-	if rc.NRes >= 100 && r.Chance(55) {
+	if rc.NRes >= 100 && r.Chance(55) && rc.Layout == "small" {
 		rc.Layout = []string{"heavy-first", "heavy-last", "alternating", "heavy-random"}[r.Intn(4)]
 		rc.NHeavy = []int{85, 90, 100, 100, 110, 120, 150}[r.Intn(7)]
 		if rc.Layout == "heavy-random" {
@@ -800,6 +809,17 @@ func c08Gen(r *Rng, i int) c08Recipe {
 }
 
 // c08Edge: hand-written worlds, run before the generated ones.
+// c08SweepEdge: the number of staged maximal-size results swept densely (every value) across the point where the byte
+// limit starts to cut — about 68 with a full block history and 10 proposals (node A), about 71 without history (node B).
+func c08SweepEdge() []c08Recipe {
+	var out []c08Recipe
+	for n := 60; n <= 80; n++ {
+		out = append(out, c08Recipe{Seed: 6000 + uint64(n), Seqs: []uint64{uint64(100 + n)}, NRes: n, Layout: "max-log", InflightB: -1,
+			NLog: 6, NCond: 6, HistA: 256, HistB: 0})
+	}
+	return out
+}
+
 func c08Edge() []c08Recipe {
 	return []c08Recipe{
 		{Seed: 1, Seqs: []uint64{9, 10, 11}, NRes: 0, Layout: "small", InflightB: -1},
@@ -870,6 +890,9 @@ func TestC08(t *testing.T) {
 		return
 	}
 	for _, rc := range c08Edge() {
+		c08RunAndEmit(t, em, "edge", rc)
+	}
+	for _, rc := range c08SweepEdge() {
 		c08RunAndEmit(t, em, "edge", rc)
 	}
 	for _, rc := range c08ScriptEdge() {
